@@ -421,8 +421,16 @@ func (c *c16Run) stepWatcher(id int, fire, conn bool) {
 	both := false
 	if strings.HasSuffix(th.site, "#1") && fire {
 		both = c.sm.ctx.Err() != nil
-		vFire(th, "timer")
-		c.tags["rebuild-timer-fired"] = true
+		if !vFire(th, "timer") {
+			// the timer this select waits on has already expired and was not reset: a real timer stays silent for ever
+			c.tags["rebuild-timer-silent"] = true
+			if c.sm.ctx.Err() == nil {
+				return
+			}
+			both = false
+		} else {
+			c.tags["rebuild-timer-fired"] = true
+		}
 	}
 	if strings.HasSuffix(th.site, "#0") && c.watched[id].Session().IsClosed() && c.sm.ctx.Err() != nil {
 		both = true
